@@ -115,6 +115,9 @@ type Facts struct {
 	Viol     []Violation
 	CacheM   []MethodFact
 	LoadErrs []string
+	// use sites of unbounded.Channel outside its package / uses of Channel.Ch inside it (chanuse.go)
+	ChanUses []ChanUse
+	ChanImpl []ChanUse
 }
 
 type Edge struct {
@@ -1421,6 +1424,7 @@ func analyse(repo string) (*Facts, error) {
 	}
 	sort.Strings(facts.Order)
 	derive(facts)
+	facts.ChanUses, facts.ChanImpl = chanUses(a)
 	return facts, nil
 }
 
